@@ -378,6 +378,13 @@ pub mod verif {
     }
 
     pub(super) fn record_stale(slot: usize, handle_gen: u32, cur_gen: u32, pooled: bool, op: &'static str) {
+        // lets the repository's own tests act as stale-handle detectors when built with the hook
+        if std::env::var_os("TSRUN_VERIF_PANIC_ON_STALE").is_some() {
+            #[allow(clippy::panic)]
+            {
+                panic!("tsrun_verif: stale Gc handle used: {} slot={} handle_gen={} cur_gen={} pooled={}", op, slot, handle_gen, cur_gen, pooled);
+            }
+        }
         STALE.with(|l| {
             let mut l = l.borrow_mut();
             if l.len() < 64 {
